@@ -24,9 +24,9 @@ func init() {
 			"R3 contradiction rule for optional values: a struct field that is compared with nil somewhere is only invoked/dereferenced under a dominating non-nil fact (or after a non-nil store); values obtained together with an error are not used on the error branch; " +
 			"R4 Init->Evaluate typestate for every registered action and operator: a field invoked or dereferenced by Evaluate is assigned on every successful path of Init / the factory, or tested for nil before use; " +
 			"R5 run-time limits reach slice bounds only range-checked (shared with C10.R2/R3); R6 (incl. indices counted down in a loop, which need a lower bound, and variables indexing fixed-size arrays, which need both bounds; validators returning an error contribute what they guarantee when they return nil) look-ahead and fixed-position reads in the configuration parser, macro expander, string helpers, actions and engine are dominated by a length fact (A9 shapes only); " +
-			"R7 Include recursion is bounded by a counter tested before recursing; R8 every non-constant size handed to an allocation primitive (make, Builder/Buffer.Grow, Repeat) is provably non-negative, and a make with both len and cap has len <= cap; R2 also covers assertions to interface types (every possible dynamic type implements the target); R3 also follows pointer fields that a composite literal leaves unset and nothing ever assigns (nil for the object's whole life) through accessors and interface wrapping to every dereference; R9 every store to Rule.DisruptiveStatus carries a status net/http's WriteHeader accepts (0 or 100..999, by constant or by dominating comparisons). R10 every scanning loop of the decoders and parsers whose continuation test reads a loop-carried position advances that position on every feasible path of an iteration (a path that returns to the test unchanged is accepted only when its last edge falsifies the test, and the false side of `j > 0` is pruned when j is a counter whose bounded inner loop provably runs once).",
+			"R7 Include recursion is bounded by a counter tested before recursing; R8 every non-constant size handed to an allocation primitive (make, Builder/Buffer.Grow, Repeat) is provably non-negative, and a make with both len and cap has len <= cap; R2 also covers assertions to interface types (every possible dynamic type implements the target); R3 also follows pointer fields that a composite literal leaves unset and nothing ever assigns (nil for the object's whole life) through accessors and interface wrapping to every dereference; R9 every store to Rule.DisruptiveStatus carries a status net/http's WriteHeader accepts (0 or 100..999, by constant or by dominating comparisons). R10 every scanning loop of the decoders and parsers whose continuation test reads a loop-carried position advances that position on every feasible path of an iteration (a path that returns to the test unchanged is accepted only when its last edge falsifies the test, and the false side of `j > 0` is pruned when j is a counter whose bounded inner loop provably runs once). R11 every integer division or remainder divides by a non-zero constant or by a value a dominating comparison makes non-zero.",
 		NotDecided: []string{
-			"panics from arithmetic, map writes on nil maps, and index shapes outside x[c], x[v+c], x[len-c]",
+			"panics from shifts and conversions, map writes on nil maps, and index shapes outside x[c], x[v+c], x[len-c]",
 			"panics inside third-party libraries (regexp, aho-corasick, gjson, libinjection, xml)",
 			"termination of every loop (hangs), memory exhaustion",
 			"look-ahead reads listed under coverage.notes (manual arguments only)",
@@ -237,6 +237,71 @@ func runC07(c *an.Ctx) {
 
 	// ---- R10 scanning loops make progress.
 	c07Progress(c)
+
+	// ---- R11 integer division and remainder.
+	c07Division(c)
+}
+
+// c07Division (R11): an integer division or remainder panics when the divisor is zero.  Every
+// such operation in the module (init functions and tests excluded) must divide by a non-zero
+// constant, or by a value that a dominating comparison (d != 0, d > 0, d >= 1, and the same
+// through len()) or the operand's own shape (x | c, x + c over a non-negative x, with c > 0)
+// makes non-zero.  Today every divisor is a constant; the rule exists so that a new
+// `i % len(list)` over a list that can be empty is reported where it is written.
+func c07Division(c *an.Ctx) {
+	n := 0
+	seen := map[string]int{}
+	for _, fn := range c.P.ModFuncs {
+		if rp := relPkg(fn); strings.HasPrefix(rp, "testing") || strings.HasPrefix(rp, "examples") || strings.Contains(rp, "/e2e") {
+			continue
+		}
+		an.Instrs(fn, func(in ssa.Instruction) {
+			b, ok := in.(*ssa.BinOp)
+			if !ok || (b.Op != token.QUO && b.Op != token.REM) {
+				return
+			}
+			if bt, ok := b.X.Type().Underlying().(*types.Basic); !ok || bt.Info()&types.IsInteger == 0 {
+				return
+			}
+			n++
+			c.FuncsAnalysed[fn] = true
+			name := an.RelName(fn)
+			d := tempName.ReplaceAllString(an.Expr(b.Y), "")
+			seen[name+d]++
+			key := "divisor " + d + " in " + name
+			if seen[name+d] > 1 {
+				key += fmt.Sprintf("#%d", seen[name+d])
+			}
+			if k, ok := an.ConstInt(b.Y); ok {
+				c.Check(k != 0, "R11", key, b.Pos(), fmt.Sprintf("constant divisor %d", k), "division by the constant 0")
+				return
+			}
+			f := an.FactsAt(b)
+			lo, hi, ne := f.Range(d)
+			nonzero := lo >= 1 || hi <= -1
+			for _, v := range ne {
+				if v == 0 {
+					nonzero = true
+				}
+			}
+			if !nonzero {
+				if bo, ok := b.Y.(*ssa.BinOp); ok && (bo.Op == token.OR || bo.Op == token.ADD) {
+					// x | c and len(..) + c with c > 0
+					for _, pair := range [][2]ssa.Value{{bo.X, bo.Y}, {bo.Y, bo.X}} {
+						if k, ok := an.ConstInt(pair[1]); ok && k > 0 && (bo.Op == token.OR || isLenCall(pair[0])) {
+							nonzero = true
+						}
+					}
+				}
+			}
+			if nonzero {
+				c.Ok("R11", key, b.Pos(), "the divisor is non-zero where the operation is reached", f.Strings()...)
+			} else {
+				c.Bad("R11", key, b.Pos(), "integer "+b.Op.String()+" by "+d+", which no dominating comparison makes non-zero: a zero divisor panics (integer divide by zero) and input chosen by a configuration author or an HTTP peer may produce it", f.Strings()...)
+			}
+		})
+	}
+	c.MinCount("R11", "integer divisions and remainders", n, 3)
 }
 
 // c07ProgressAllow: no-progress paths that are infeasible for a reason the path search does not see.
@@ -841,6 +906,10 @@ func c07Optional(c *an.Ctx) {
 					if r.Op == token.MUL && r.X == ssa.Value(u) {
 						use = "dereference of"
 					}
+				case *ssa.MapUpdate:
+					if r.Map == ssa.Value(u) {
+						use = "map entry written through" // an assignment to an entry of a nil map panics
+					}
 				}
 				if use == "" {
 					continue
@@ -1402,3 +1471,8 @@ func c07Nullable(c *an.Ctx, fns []*ssa.Function) {
 }
 
 var c07NullableAllow = map[string]string{}
+
+func isLenCall(v ssa.Value) bool {
+	call, ok := v.(*ssa.Call)
+	return ok && (an.IsBuiltinCall(call, "len") || an.IsBuiltinCall(call, "cap"))
+}
